@@ -9,7 +9,7 @@ _reg('isa', ['I1'])
 _reg('jit', ['J1'])
 _reg('recip', ['R1', 'R2'])
 _reg('api', ['H1', 'D2', 'I7'])
-_reg('life', ['H6'])
+_reg('life', ['H6', 'H7'])
 
 PROPS = {
  'C11': dict(level='other', lemmas=['B1', 'B2', 'B3', 'B4', 'B5'],
@@ -39,5 +39,8 @@ PROPS = {
    explanation='TODO', trusted=[], outside=[]),
  'C15': dict(level='other', lemmas=['H6'],
    files=['src/randomx.cpp', 'src/allocator.cpp', 'src/virtual_memory.c', 'src/virtual_machine.cpp', 'src/vm_compiled.hpp', 'src/vm_interpreted.hpp', 'src/jit_compiler_x86.cpp', 'src/dataset.hpp', 'src/dataset.cpp'],
+   explanation='TODO', trusted=[], outside=[]),
+ 'C16': dict(level='other', lemmas=['H7'],
+   files=['src/vm_compiled.cpp', 'src/vm_compiled_light.cpp', 'src/dataset.cpp', 'src/virtual_memory.c', 'src/jit_compiler_x86.cpp', 'src/randomx.cpp'],
    explanation='TODO', trusted=[], outside=[]),
 }
